@@ -427,6 +427,13 @@ func runCheck(root, prop, tier string, makeBaseline, verbose, keep bool, onlyFn 
 	for _, t := range trustedFns {
 		trusted = append(trusted, "trusted (body not verified): "+t)
 	}
+	seenNote := map[string]bool{}
+	for _, n := range notes {
+		if strings.HasPrefix(n, "assumed ") && !seenNote[n] {
+			seenNote[n] = true
+			trusted = append(trusted, n)
+		}
+	}
 	if len(samples) == 0 {
 		samples = append(samples, map[string]interface{}{"note": "no obligation discharged"})
 	}
